@@ -16,7 +16,8 @@ class C02(rowgen.RowGenProp):
                 "Wheatley.C02.plain_bob_minor",
                 "Wheatley.C02.notation_round_trip",
                 "Wheatley.C02.generator_rings_the_notation",
-                "Wheatley.C02.permute_is_the_change", "Wheatley.C02.plain_rows_denoted"]
+                "Wheatley.C02.permute_is_the_change", "Wheatley.C02.plain_rows_denoted",
+                "Wheatley.C02.method_rows_are_the_generators", "Wheatley.C02.fresh_bot_inv"]
     # the command line: what of the built configuration this property is about
     cli_fields = ['source']
     level_text = ("theorems: row k = start row transformed by the first k changes read cyclically from the start "
